@@ -163,7 +163,13 @@ func runCrash(k *kernel.K) {
 			if err != nil {
 				k.Violate("C36", "scenario", "current-set-id-unreadable", "GetCurrentSetID failed during the scenario: %v", err)
 			}
-			round++
+			// a round can be finalised twice: a commit message finalises round r, then the node's own
+			// finalise() finalises a descendant in the same round
+			if round == 0 || !k.Bool(1, 4, "same-round-again") {
+				round++
+			} else {
+				k.Probe("finalised-twice-in-one-round")
+			}
 			k.Event("finalise", "%s num=%d round=%d set=%d", cu.Short(target), n.all[target].rb.Number, round, setID)
 			n.finalise(k, target, round, setID)
 		}
